@@ -497,14 +497,19 @@ func jsonQuote(sb *strings.Builder, s string, style int) {
 			sb.WriteString(`\u00`)
 			sb.WriteByte(hexd[r>>4])
 			sb.WriteByte(hexd[r&15])
-		case style == 1 && r == '/':
+		case (style == 1 || style == 4) && r == '/':
 			sb.WriteString(`\/`)
-		case style == 1 && r >= 0x80:
+		case (style == 1 && r >= 0x80) || style == 2 || (style == 4 && (r >= 0x80 || r == 'A' || r == 'e' || r == 's' || r == '$')):
+			// style 1: non-ASCII as \u escapes; style 2: EVERY character as a \u escape; style 4: upper-case hex digits
+			f := `\u%04x`
+			if style == 4 {
+				f = `\u%04X`
+			}
 			if r >= 0x10000 {
 				r1, r2 := utf16.EncodeRune(r)
-				fmt.Fprintf(sb, `\u%04x\u%04x`, r1, r2)
+				fmt.Fprintf(sb, f+f, r1, r2)
 			} else {
-				fmt.Fprintf(sb, `\u%04x`, r)
+				fmt.Fprintf(sb, f, r)
 			}
 		default:
 			sb.WriteRune(r)
@@ -529,22 +534,46 @@ func (n *LNode) write(sb *strings.Builder, style int) {
 		jsonQuote(sb, n.Str, style)
 	case JArr:
 		sb.WriteByte('[')
+		if style == 3 {
+			sb.WriteString(" \t")
+		}
 		for i, k := range n.Kids {
 			if i > 0 {
 				sb.WriteByte(',')
+				if style == 3 {
+					sb.WriteString("  ")
+				}
 			}
 			k.write(sb, style)
+		}
+		if style == 3 {
+			sb.WriteByte(' ')
 		}
 		sb.WriteByte(']')
 	case JObj:
 		sb.WriteByte('{')
+		if style == 3 {
+			sb.WriteByte(' ')
+		}
 		for i, k := range n.Kids {
 			if i > 0 {
 				sb.WriteByte(',')
+				if style == 3 {
+					sb.WriteString(" \t ")
+				}
 			}
 			jsonQuote(sb, n.Keys[i], style)
+			if style == 3 {
+				sb.WriteByte(' ')
+			}
 			sb.WriteByte(':')
+			if style == 3 {
+				sb.WriteString("  ")
+			}
 			k.write(sb, style)
+		}
+		if style == 3 {
+			sb.WriteString(" \t")
 		}
 		sb.WriteByte('}')
 	}
